@@ -161,6 +161,35 @@ theorem transfOptList_len (n : Nsp) (b : List String) : ∀ (es es' : List (Opti
       cases pure_ok h
       simp [transfOptList_len n b es es'' hes]
 
+/-- the transformer leaves the literal text of an f-string alone: a brace-free spec stays brace-free -/
+theorem transfList_noBrace (n : Nsp) : ∀ (b : List String) (vs vs' : List Expr), transfList n b vs = .ok vs' →
+    wfParts vs → specNoBrace vs = true → specNoBrace vs' = true
+  | b, [], vs', h, _, _ => by simp only [transfList] at h; cases h; rfl
+  | b, e :: vs, vs', h, hw, hn => by
+      simp only [transfList] at h
+      obtain ⟨e', he, h⟩ := bind_ok h
+      obtain ⟨vs'', hvs, h⟩ := bind_ok h
+      cases pure_ok h
+      cases e with
+      | const c =>
+        cases c with
+        | str cps =>
+          simp only [wfParts] at hw
+          simp only [transf] at he
+          cases he
+          simp only [specNoBrace, Bool.and_eq_true] at hn ⊢
+          exact ⟨hn.1, transfList_noBrace n b vs vs'' hvs hw.2.2.2 hn.2⟩
+        | _ => simp [wfParts] at hw
+      | formattedValue v c sp =>
+        simp only [wfParts] at hw
+        simp only [transf] at he
+        obtain ⟨_, _, he⟩ := bind_ok he
+        obtain ⟨_, _, he⟩ := bind_ok he
+        cases pure_ok he
+        simp only [specNoBrace] at hn ⊢
+        exact transfList_noBrace n b vs vs'' hvs hw.2.2.2 hn
+      | _ => simp [wfParts] at hw
+
 theorem transfComps_ne_nil (n : Nsp) (f b : List String) : ∀ (gs gs' : List Comp),
     transfComps n f b gs = .ok gs' → gs ≠ [] → gs' ≠ []
   | [], _, _, hne => absurd rfl hne
@@ -751,7 +780,7 @@ mutual
               cases pure_ok hse
               cases pure_ok hsp
               simp only [wfSpec]
-              exact transfList_parts n b ws ws' hws' hws
+              exact ⟨transfList_parts n b ws ws' hws' hws.1, transfList_noBrace n b ws ws' hws' hws.1 hws.2⟩
             | _ => simp [wfSpec] at hws
         | _ => simp [wfParts] at hw
   termination_by structural _ x => x
